@@ -479,9 +479,12 @@ func (u *upTarget) freshRef() ([4]byte, bool) {
 	return ref, true
 }
 
+// c09ExtraFamilies: families registered by the other c09_*.go files.
+var c09ExtraFamilies []*Family
+
 func init() {
 	props["C09"] = func(x *Ctx) {
-		x.rule = "family upload-every-cut: one small file (0..300 data bytes, fork count 2 or 3, comment 0..40 bytes) per case, uploaded once for EVERY cut position k of its connection bytes (preamble, header, data, resource fork), each history = cut at k, resume from the reported offset to completion, second upload refused, every 8th followed by a download. family upload-histories: files of 0..256 KiB (thorough: up to 2 MiB), 1..5 cuts drawn from the boundary set {0,15,16,17, header start/INFO/DATA boundaries ±1, data start ±1, mid-data, data end ±1, fork header ±1, end-1} and uniformly random positions, random read segmentation, with and without PreserveResourceForks, then uncut resume, stale-reference transfer, refusal, two downloads. family upload-aged-histories: 6 targets per case (40..70000 data bytes), 2..6 cuts in a row (75 % strictly inside the remaining data fork so that the partial file grows from resume to resume, the rest from the boundary set), before EVERY request the modification times of <name>.incomplete, <name>, the folder and the side files are moved (each with its own probability) to an age from {0,1,4,5,6,9,11,29,31,59,61,301,3601,86401,40000000 s, 1 h in the future} or nothing passes at all (25 %), 30 % of the attempts are followed by a request whose transfer never starts; every resume offset is judged against the partial file's size on disk at that moment and the whole history is compared event by event with the model's upHistory. After every attempt both names are read back. non-trivial = an attempt that delivered at least one data-fork byte; distinct = distinct (data length, fork count, resource length, resume offset, cut position, preserve flag)"
+		x.rule = "family upload-every-cut: one small file (0..300 data bytes, fork count 2 or 3, comment 0..40 bytes) per case, uploaded once for EVERY cut position k of its connection bytes (preamble, header, data, resource fork), each history = cut at k, resume from the reported offset to completion, second upload refused, every 8th followed by a download. family upload-histories: files of 0..256 KiB (thorough: up to 2 MiB), 1..5 cuts drawn from the boundary set {0,15,16,17, header start/INFO/DATA boundaries ±1, data start ±1, mid-data, data end ±1, fork header ±1, end-1} and uniformly random positions, random read segmentation, with and without PreserveResourceForks, then uncut resume, stale-reference transfer, refusal, two downloads. family upload-aged-histories: 6 targets per case (40..70000 data bytes), 2..6 cuts in a row (75 % strictly inside the remaining data fork so that the partial file grows from resume to resume, the rest from the boundary set), before EVERY request the modification times of <name>.incomplete, <name>, the folder and the side files are moved (each with its own probability) to an age from {0,1,4,5,6,9,11,29,31,59,61,301,3601,86401,40000000 s, 1 h in the future} or nothing passes at all (25 %), 30 % of the attempts are followed by a request whose transfer never starts; every resume offset is judged against the partial file's size on disk at that moment and the whole history is compared event by event with the model's upHistory. family upload-declared-sizes: 6 targets per case, 1..4 attempts each whose header DECLARES a data fork of a size drawn from {0x7FFFFFFF, 0x80000000, 0x80000001, 0xFFFFFFFF, 0xFFFFFFFE, 0x100000, 0x100001, 0xFFFF, 0x10000, 0x8000, 0xC0000000, …} or uniformly from [2^20, 2^32) while only 0..4096 data bytes are sent before the connection dies (12 % cut inside preamble/header instead), each continuing from the reported offset; 60 % end with an honest attempt declaring the short remainder (fork count 3: resource fork declared from the same set and cut, then small and whole); judged after every attempt: no final name, partial = exactly the bytes received, resume offset = bytes held, completion = exactly the bytes sent. After every attempt both names are read back. non-trivial = an attempt that delivered at least one data-fork byte; distinct = distinct (data length, fork count, resource length, resume offset, cut position, preserve flag)"
 		x.assume = []string{
 			"a client that restarts from zero without asking to resume while a partial file exists is outside the property's quantifier (the server appends); not generated",
 			"file contents are pseudo-random so that a shifted, repeated or dropped block changes the comparison",
@@ -496,6 +499,10 @@ func init() {
 		x.Add(&Family{Name: "upload-histories", Quick: 48, Thor: 480, Run: runC09Histories})
 		// wave d: multi-cut histories with time passing (modification times moved) between the requests — c09_aged.go
 		x.Add(&Family{Name: "upload-aged-histories", Quick: 14, Thor: 200, Run: runC09Aged})
+		// wave e: declared fork sizes over the whole 32-bit range, short prefixes sent — c09_declared.go
+		for _, f := range c09ExtraFamilies {
+			x.Add(f)
+		}
 	}
 }
 
